@@ -139,9 +139,10 @@ theorem divScalar_refines (S : ScalarOps α) (hS : SqrtLaw S) (a : Op α) (cinv 
   · simp [denote]
   · exact mulScalar_refines S hS _ cinv i j
 
-theorem sub_refines (S : ScalarOps α) (hS : SqrtLaw S) (a b r : Op α) (h : sub S a b = .ok r) (i j : Nat) :
+theorem sub_refines (S : ScalarOps α) (hS : SqrtLaw S) (a b r : Op α) (h : sub S a b = .ok r) (i j : Nat)
+    (hi : i < a.rows) :
     r.denote i j = a.denote i j + b.denote i j * (-1) := by
   unfold sub at h
-  rw [add_refines _ _ _ h, mulScalar_refines S hS]
+  rw [add_refines _ _ _ h i j hi, mulScalar_refines S hS]
 
 end LinOp.C02
